@@ -33,6 +33,8 @@ PROBES = [
     # link labels whose scan (parseLinkLabel -> skipToken) has to step over every inline construct that can hold a ']'
     "[a `]` b](x) [c \\] d](y) [e <i t=\"]\"> f](z) [g <http://h/]> i](w) [j ![k]](l) m](n) [*o]* p](q) [~~r]~~](s)\n",
     "[" * 7 + "x" + "](u)" * 7 + " " + "![" * 5 + "y" + "](v)" * 5 + "\n",
+    # every block construct indented by four columns: what it is depends on whether `code` is enabled *now*
+    "    # h\n\n    > q\n\n    - i\n\n    ***\n\n    ```\n    x\n    ```\n\n    [r]: /u\n\n    <div>\n\n    t\n    ===\n\n    |a|\n    |-|\n\npara\n    lazy\n",
 ]
 OPT_CHOICES = [
     ("html", [True, False]), ("typographer", [True, False]), ("breaks", [True, False]), ("xhtmlOut", [True, False]),
